@@ -3894,6 +3894,8 @@ impl LineBuf {
 				}
 		}
 
+		#[cfg(vicut_verif)]
+		let verif_cmd = cmd.clone();
 		let ViCmd { register, verb, motion, flags, raw_seq: _ } = cmd;
 
 		let verb_cmd_ref = verb.as_ref();
@@ -3942,6 +3944,8 @@ impl LineBuf {
 				})
 		};
 
+		#[cfg(vicut_verif)]
+		crate::verif::trace_motion(self, &verif_cmd, &motion_eval);
 		if let Some(verb) = verb.clone() {
 			self.exec_verb(verb.1, motion_eval, register)?;
 		} else {
@@ -3984,6 +3988,8 @@ impl LineBuf {
 				self.cursor.sub(1); // push it off the newline
 		}
 
+		#[cfg(vicut_verif)]
+		crate::verif::trace_lb_done(self);
 		Ok(())
 	}
 	pub fn as_str(&self) -> &str {
